@@ -74,7 +74,7 @@ def _prepare(sym):
     if _prep or not sym:
         return
     _prep["ok"] = True
-    for name in ("pde.grids.boundaries.local", "pde.grids.boundaries.axis", "pde.grids.boundaries.axes", "pde.backends.numba._boundaries", "pde.backends.numba.backend"):
+    for name in ("pde.grids.boundaries.local", "pde.grids.boundaries.axis", "pde.grids.boundaries.axes", "pde.backends.numba._boundaries", "pde.backends.numba.backend", "pde.backends.numpy.backend", "pde.backends.base"):
         m = importlib.import_module(name)
         m.np = X._NpProxy(np)
         install_float_shadow(m)
@@ -88,6 +88,8 @@ GRIDS = {
     "cart2:periodic-y": {"kind": "cart", "shape": (2, 3), "periodic": (False, True)},
     "unit2": {"kind": "unit", "shape": (2, 3)},
     "polar:hole": {"kind": "polar", "shape": (3,), "hole": True},
+    "polar:nohole": {"kind": "polar", "shape": (3,), "hole": False},
+    "sph:hole": {"kind": "sph", "shape": (3,), "hole": True},
     "sph:nohole": {"kind": "sph", "shape": (3,), "hole": False},
     "cyl:hole": {"kind": "cyl", "shape": (3, 2), "hole": True},
     "cyl:periodic_z": {"kind": "cyl", "shape": (2, 3), "hole": False, "periodic_z": True},
